@@ -76,6 +76,9 @@ type BaseStore struct {
 	muCache   sync.RWMutex
 	muIndex   sync.RWMutex
 	muJoining sync.Mutex
+	// muWrite makes "append to the log, then persist the new local head" atomic with respect to other
+	// local writes, so that the head persisted last is the head appended last
+	muWrite   sync.Mutex
 	sortFn    ipfslog.SortFn
 	logger    *zap.Logger
 	tracer    trace.Tracer
@@ -844,8 +847,10 @@ func (b *BaseStore) AddOperation(ctx context.Context, op operation.Operation, on
 
 	oplog := b.OpLog()
 
+	b.muWrite.Lock()
 	e, err := oplog.Append(ctx, data, &ipfslog.AppendOptions{PointerCount: b.referenceCount})
 	if err != nil {
+		b.muWrite.Unlock()
 		return nil, fmt.Errorf("unable to append data on log: %w", err)
 	}
 
@@ -855,10 +860,12 @@ func (b *BaseStore) AddOperation(ctx context.Context, op operation.Operation, on
 
 	marshaledEntry, err := json.Marshal([]ipfslog.Entry{e})
 	if err != nil {
+		b.muWrite.Unlock()
 		return nil, fmt.Errorf("unable to marshal entry: %w", err)
 	}
 
 	err = b.Cache().Put(ctx, datastore.NewKey("_localHeads"), marshaledEntry)
+	b.muWrite.Unlock()
 	if err != nil {
 		return nil, fmt.Errorf("unable to add data to cache: %w", err)
 	}
